@@ -5,13 +5,89 @@
 //! case: {"files": [{"path": "a.koto" | "a/main.koto", "src": "..."}],
 //!        "prelude_names": ["string", ...],
 //!        "runs": [{"tests": bool, "steps": [{"clear": true} | {"src": "...", "force": bool, "dir": "" | "a"}]}]}
-//! out:  {"runs": [[{"r": class, "out": [lines], "exports": "M{...}", "msg": "..."}]]} | {"panic", "at"}
-use kh::script::Capture;
+//! out:  {"runs": [[{"r": class, "out": [lines], "exports": "M{...}", "msg": "...", "guard": bool}]]} | {"panic", "at"}
+//!
+//! Robustness: every case runs in its own thread with a 1 GiB stack and its output line is flushed
+//! before the next case starts (the check attributes a dying harness to the first case without a
+//! line).  The stdout sink counts the "top level entered" markers (m:100..m:199) per host step: when
+//! one of them is printed more than GUARD_LIMIT times within a single step the sink trips -- that
+//! write and every later write of the step fail -- so that an unbounded nested re-execution of a
+//! module's top level (a cycle that is not reported) unwinds as an error instead of overflowing the
+//! stack; the step is reported with "guard": true (the markers printed so far are kept).
 use kh::*;
 use koto::prelude::*;
 use koto::runtime::{KotoVmSettings, Ptr};
 use serde_json::{Value, json};
 use std::path::{Path, PathBuf};
+
+const GUARD_LIMIT: usize = 40;
+
+#[derive(Default)]
+struct SinkState {
+    text: String,
+    counts: std::collections::HashMap<String, usize>,
+    tripped: bool,
+}
+
+/// stdout / stderr sink with the per-step repetition guard
+#[derive(Clone)]
+struct Sink {
+    st: koto::runtime::PtrMut<SinkState>,
+}
+
+impl Sink {
+    fn new() -> Self {
+        Self { st: koto::runtime::PtrMut::from(SinkState::default()) }
+    }
+    /// returns (text, guard tripped) and resets the per-step state
+    fn take(&self) -> (String, bool) {
+        let mut st = self.st.borrow_mut();
+        let text = std::mem::take(&mut st.text);
+        let tripped = st.tripped;
+        st.counts.clear();
+        st.tripped = false;
+        (text, tripped)
+    }
+    fn line(&self, line: &str) -> koto::runtime::Result<()> {
+        let mut st = self.st.borrow_mut();
+        if st.tripped {
+            return koto::runtime::runtime_error!("kv_guard: output refused after the guard tripped");
+        }
+        let is_top = line.len() == 5 && line.starts_with("m:1");
+        if is_top {
+            let n = st.counts.entry(line.to_string()).or_insert(0);
+            *n += 1;
+            if *n > GUARD_LIMIT {
+                st.tripped = true;
+                st.text.push_str(line);
+                st.text.push('\n');
+                return koto::runtime::runtime_error!("kv_guard: marker {line} printed more than {GUARD_LIMIT} times in one step");
+            }
+        }
+        st.text.push_str(line);
+        st.text.push('\n');
+        Ok(())
+    }
+}
+
+impl KotoFile for Sink {
+    fn id(&self) -> KString {
+        "_sink_".into()
+    }
+}
+impl KotoRead for Sink {}
+impl KotoWrite for Sink {
+    fn write(&self, bytes: &[u8]) -> koto::runtime::Result<()> {
+        self.st.borrow_mut().text.push_str(&String::from_utf8_lossy(bytes));
+        Ok(())
+    }
+    fn write_line(&self, output: &str) -> koto::runtime::Result<()> {
+        self.line(output)
+    }
+    fn flush(&self) -> koto::runtime::Result<()> {
+        Ok(())
+    }
+}
 
 fn render(v: &KValue, prelude: &[(String, KValue)], depth: usize, out: &mut String) {
     if depth > 12 {
@@ -64,7 +140,11 @@ fn render(v: &KValue, prelude: &[(String, KValue)], depth: usize, out: &mut Stri
 fn classify(e: &koto::Error) -> u64 {
     let text = e.to_string();
     let first = text.lines().next().unwrap_or("");
-    if text.contains("kv_thrown") {
+    if text.contains("kv_guard") {
+        9
+    } else if matches!(e, koto::Error::CompileError { .. }) && !first.contains("unable to find module") {
+        8
+    } else if text.contains("kv_thrown") {
         3
     } else if first.contains("recursive import of module") {
         1
@@ -88,7 +168,7 @@ fn run_case(case: &Value, root: &Path) -> Value {
     }
     let mut runs_out = vec![];
     for run in case["runs"].as_array().unwrap() {
-        let capture = Capture::new();
+        let capture = Sink::new();
         let stdout: Ptr<dyn KotoFile> = Ptr::from(Box::new(capture.clone()) as Box<dyn KotoFile>);
         let stderr: Ptr<dyn KotoFile> = Ptr::from(Box::new(capture.clone()) as Box<dyn KotoFile>);
         let mut koto = Koto::with_settings(KotoSettings {
@@ -97,6 +177,7 @@ fn run_case(case: &Value, root: &Path) -> Value {
                 run_import_tests: run["tests"].as_bool().unwrap_or(true),
                 stdout: stdout.clone(),
                 stderr,
+                execution_limit: Some(std::time::Duration::from_secs(60)),
                 ..Default::default()
             },
         });
@@ -130,7 +211,7 @@ fn run_case(case: &Value, root: &Path) -> Value {
                 koto.clear_module_cache();
                 let mut ex = String::new();
                 render(&KValue::Map(koto.exports().clone()), &prelude, 0, &mut ex);
-                steps_out.push(json!({"r": 0, "out": [], "exports": ex, "msg": ""}));
+                steps_out.push(json!({"r": 0, "out": [], "exports": ex, "msg": "", "guard": false}));
                 continue;
             }
             let src = step["src"].as_str().unwrap();
@@ -143,11 +224,11 @@ fn run_case(case: &Value, root: &Path) -> Value {
                 Ok(_) => (0, String::new()),
                 Err(e) => (classify(&e), e.to_string()),
             };
-            let text = capture.take();
+            let (text, tripped) = capture.take();
             let lines: Vec<&str> = text.lines().collect();
             let mut ex = String::new();
             render(&KValue::Map(koto.exports().clone()), &prelude, 0, &mut ex);
-            steps_out.push(json!({"r": r, "out": lines, "exports": ex, "msg": msg}));
+            steps_out.push(json!({"r": r, "out": lines, "exports": ex, "msg": msg, "guard": tripped}));
         }
         runs_out.push(Value::Array(steps_out));
     }
@@ -155,6 +236,7 @@ fn run_case(case: &Value, root: &Path) -> Value {
 }
 
 fn main() {
+    use std::io::Write;
     quiet_panics();
     let cases = read_cases();
     let mut w = out();
@@ -168,11 +250,21 @@ fn main() {
         let _ = std::fs::remove_dir_all(&root);
         let root2 = root.clone();
         let case2 = case.clone();
-        let r = guarded(move || run_case(&case2, &root2));
+        let handle = std::thread::Builder::new()
+            .stack_size(1 << 30)
+            .spawn(move || {
+                quiet_panics();
+                let r = guarded(move || run_case(&case2, &root2));
+                (r, last_panic_location())
+            })
+            .expect("spawn");
+        let joined = handle.join();
         let _ = std::fs::remove_dir_all(&root);
-        match r {
-            Ok(v) => emit_line(&mut w, &v),
-            Err(msg) => emit_line(&mut w, &json!({"panic": msg, "at": last_panic_location()})),
+        match joined {
+            Ok((Ok(v), _)) => emit_line(&mut w, &v),
+            Ok((Err(msg), at)) => emit_line(&mut w, &json!({"panic": msg, "at": at})),
+            Err(_) => emit_line(&mut w, &json!({"panic": "case thread died", "at": ""})),
         }
+        w.flush().unwrap();
     }
 }
